@@ -36,6 +36,17 @@ Definition pb_all (a : bool * bool) : bool := fst a && snd a.
 Definition m_cmp (f : Z -> Z -> bool) (a b : list (list Z)) : list (list bool) := zip_with (zip_with f) a b.
 Definition m_and (a b : list (list bool)) : list (list bool) := zip_with (zip_with andb) a b.
 Definition m_sum (a : list (list bool)) : Z := zsum (map b2z (concat a)).
+(* jnp.unique(v, size=n, fill_value=f): the sorted distinct values, padded with f (or truncated) to n entries *)
+Fixpoint uniq_insert (x : Z) (l : list Z) : list Z :=
+  match l with
+  | [] => [x]
+  | y :: t => if x <? y then x :: l else if x =? y then l else y :: uniq_insert x t
+  end.
+Definition jnp_unique (v : list Z) (n : Z) (f : Z) : list Z :=
+  let u := fold_left (fun acc x => uniq_insert x acc) v [] in
+  firstn (Z.to_nat n) (u ++ repeat f (Z.to_nat n - length u)).
+(* base.at[idxs].set(v) with an index ARRAY: one scatter per index (all writes carry the same value) *)
+Definition scatter_const {A : Type} (base : list A) (idxs : list Z) (v : A) : list A := fold_left (fun b i => jset b i v) idxs base.
 Definition m_map {A B : Type} (f : A -> B) (a : list (list A)) : list (list B) := map (map f) a.
 Definition m_all (a : list (list bool)) : bool := forallb (forallb (fun b : bool => b)) a.
 Definition m_eqb (a b : list (list Z)) : bool := list_eqb (list_eqb Z.eqb) a b.      (* jnp.array_equal on equally shaped arrays *)
@@ -65,9 +76,16 @@ class Tr:
                 return ("true" if n.value else "false"), "B"
             if isinstance(n.value, int):
                 return "(%d)" % n.value, "Z"
+            if isinstance(n.value, float) and n.value == int(n.value):
+                return "(%d)" % int(n.value), "Z"      # reward code of an integral float
             raise Unsupported("constant " + repr(n.value))
         if isinstance(n, ast.UnaryOp) and isinstance(n.op, ast.USub) and isinstance(n.operand, ast.Constant) and isinstance(n.operand.value, int):
             return "(%d)" % (-n.operand.value), "Z"
+        if isinstance(n, ast.UnaryOp) and isinstance(n.op, ast.USub):
+            v, t = self.expr(n.operand)
+            if t == "Z":
+                return "(- %s)" % v, "Z"
+            raise Unsupported("unary minus on %s" % (t,))
         if isinstance(n, ast.Name):
             if n.id in self.env:
                 return n.id, self.env[n.id]
@@ -78,6 +96,9 @@ class Tr:
                 return c, ("fn", pts, rt)
             raise Unsupported("unknown name " + n.id)
         if isinstance(n, ast.Attribute):
+            if u(n).startswith("self.") and "self" not in self.env and "." in u(n)[5:] and u(n)[5:] in S.get("methods", {}):
+                c, pts, rt = S["methods"][u(n)[5:]]
+                return c, ("fn", pts, rt)
             if u(n).startswith("self.") and "self" not in self.env and u(n)[5:] in S["self_attrs"] and "." in u(n)[5:]:
                 return u(n)[5:].replace(".", "_"), S["self_attrs"][u(n)[5:]]
             if isinstance(n.value, ast.Name) and n.value.id == "self" and "self" not in self.env:
@@ -107,6 +128,8 @@ class Tr:
             b, tb = self.expr(n.right)
             if isinstance(n.op, (ast.BitOr, ast.BitAnd)) and ta == tb == "B":
                 return "(%s %s %s)" % (a, "||" if isinstance(n.op, ast.BitOr) else "&&", b), "B"
+            if isinstance(n.op, ast.Mod) and ta == tb == "Z":
+                return "(%s mod %s)" % (a, b), "Z"       # Python's % and Coq's mod agree for a positive modulus (floor)
             if isinstance(n.op, (ast.Add, ast.Sub, ast.Mult)) and ta == tb == "Z":
                 return "(%s %s %s)" % (a, {ast.Add: "+", ast.Sub: "-", ast.Mult: "*"}[type(n.op)], b), "Z"
             if isinstance(n.op, ast.Add) and ta == "Z" and tb == "B":
@@ -135,10 +158,14 @@ class Tr:
                 if sym:
                     return "(%s %s %s)" % (a, sym, b), "B"
             fsym = {ast.GtE: "Z.geb", ast.Gt: "Z.gtb", ast.LtE: "Z.leb", ast.Lt: "Z.ltb", ast.Eq: "Z.eqb"}.get(op)
+            if ta == "Z" and tb == "Pos" and op in (ast.LtE, ast.Lt):     # k <= p  ==  p >= k
+                return "(pos_cmp %s %s %s)" % ("Z.geb" if op is ast.LtE else "Z.gtb", b, a), "PB"
             if ta == "Pos" and tb == "Z" and fsym:
                 return "(pos_cmp %s %s %s)" % (fsym, a, b), "PB"
             if ta == "VPos" and tb == "Z" and fsym:
                 return "(map (fun p_ : Z * Z => pos_cmp %s p_ %s) %s)" % (fsym, b, a), "VPB"
+            if ta == "VZ" and tb == "Z" and fsym:
+                return "(map (fun x_ : Z => %s x_ %s) %s)" % (fsym, b, a), "VB"
             if ta == "MZ" and tb == "Z" and fsym:
                 return "(m_map (fun x_ : Z => %s x_ %s) %s)" % (fsym, b, a), "MB"
             if ta == tb == "MZ" and op in (ast.Eq, ast.NotEq):
@@ -148,10 +175,17 @@ class Tr:
             raise Unsupported("comparison %s on %s, %s" % (op.__name__, ta, tb))
         if isinstance(n, ast.Subscript):
             v, t = self.expr(n.value)
-            if t == "VB" and not isinstance(n.slice, ast.Tuple):
+            if t == "VB" and not isinstance(n.slice, (ast.Tuple, ast.Slice)):
                 i, ti = self.expr(n.slice)
                 if ti == "Z":
                     return "(jget false %s %s)" % (v, i), "B"
+            if t == "MB" and isinstance(n.slice, ast.Tuple) and len(n.slice.elts) == 2 and isinstance(n.slice.elts[1], ast.Slice) \
+                    and n.slice.elts[1].lower is None and n.slice.elts[1].upper is None and n.slice.elts[1].step is None:
+                i, ti = self.expr(n.slice.elts[0])
+                if ti == "Z":
+                    return "(jget [] %s %s)" % (v, i), "VB"
+            if t == "VB" and isinstance(n.slice, ast.Slice) and n.slice.lower is None and n.slice.step is None and u(n.slice.upper) == "-1":
+                return "(removelast %s)" % v, "VB"
             if t == "VPos" and not isinstance(n.slice, ast.Tuple):
                 i, ti = self.expr(n.slice)
                 if ti == "Z":
@@ -209,7 +243,7 @@ class Tr:
             if ti != "Z" or len(rts) != 1 or any(t[0] != "fn" for _, t in fs):
                 raise Unsupported("switch types")
             return "(lax_switch %s [%s] %s %s)" % (i, "; ".join(v for v, _ in fs), fs[-1][0], x), fs[0][1][2]
-        if f == "jax.lax.cond" and len(n.args) > 3 and not kws:
+        if f in ("jax.lax.cond", "lax.cond") and len(n.args) > 3 and not kws:
             c, tc = self.expr(n.args[0])
             xs = [self.expr(x) for x in n.args[3:]]
             for lam in n.args[1:3]:
@@ -235,10 +269,14 @@ class Tr:
             v, t = self.expr(n.args[0])
             if t == "PB" and not kws:
                 return "(pb_all %s)" % v, "B"
+            if t == "B" and not kws:
+                return v, "B"            # jnp.all of a scalar boolean
             if t == "VPB" and [(k, u(x)) for k, x in kws.items()] == [("axis", "-1")]:
                 return "(map pb_all %s)" % v, "VB"
             if t == "MB" and not kws:
                 return "(m_all %s)" % v, "B"
+            if t == "VB" and not kws:
+                return "(forallb (fun b : bool => b) %s)" % v, "B"
             raise Unsupported("jnp.all on %s" % (t,))
         if f == "jnp.sum" and len(n.args) == 1 and not kws:
             v, t = self.expr(n.args[0])
@@ -259,6 +297,14 @@ class Tr:
             arr, ta = self.expr(n.func.value.value.value)
             idx = n.func.value.slice
             val, tv = self.expr(n.args[0])
+            if ta == "VZ" and tv == "Z" and not isinstance(idx, (ast.Tuple, ast.Call)):
+                i, ti = self.expr(idx)
+                if ti == "Z":
+                    return "(jset %s %s %s)" % (arr, i, val), "VZ"
+            if ta == "VB" and tv == "B" and not isinstance(idx, (ast.Tuple, ast.Call)):
+                i, ti = self.expr(idx)
+                if ti == "VZ":
+                    return "(scatter_const %s %s %s)" % (arr, i, val), "VB"
             if ta == "MZ" and tv == "Z" and isinstance(idx, ast.Call) and u(idx.func) == "tuple" and len(idx.args) == 1:
                 pp, tp = self.expr(idx.args[0])
                 if tp == "Pos":
@@ -277,6 +323,56 @@ class Tr:
                     raise Unsupported("%s: reward type" % f)
                 return "(%s [%s])" % (S["ts_kw"][f], r), "TS"
             return S["ts_kw"][f], "TS"
+        if isinstance(n.func, ast.Attribute) and n.func.attr == "squeeze" and not n.args and not kws:
+            v, t = self.expr(n.func.value)
+            if t == "Pos":
+                return v, "Pos"
+        if f == "jnp.full" and not n.args and set(kws) == {"shape", "fill_value", "dtype"} and u(kws["shape"]) == "()" and u(kws["dtype"]) == "jnp.int32":
+            v, t = self.expr(kws["fill_value"])
+            if t == "Z":
+                return v, "Z"
+        if f == "jnp.logical_and" and len(n.args) == 2 and not kws:
+            (a, ta), (b, tb) = self.expr(n.args[0]), self.expr(n.args[1])
+            if ta == tb == "B":
+                return "(%s && %s)" % (a, b), "B"
+            if ta == tb == "MB":
+                return "(m_and %s %s)" % (a, b), "MB"
+        if f == "jnp.logical_not" and len(n.args) == 1 and not kws:
+            v, t = self.expr(n.args[0])
+            if t == "B":
+                return "(negb %s)" % v, "B"
+        if f == "jnp.logical_or" and len(n.args) == 2 and not kws:
+            (a, ta), (b, tb) = self.expr(n.args[0]), self.expr(n.args[1])
+            if ta == tb == "B":
+                return "(%s || %s)" % (a, b), "B"
+        if f == "jnp.where" and len(n.args) == 3 and not kws:
+            (c, tc), (a, ta), (b, tb) = [self.expr(x) for x in n.args]
+            if tc == "B" and ta == tb == "Z":
+                return "(if %s then %s else %s)" % (c, a, b), "Z"
+            if tc == "VB" and ta == "VZ" and tb == "Z":
+                return "(zip_with (fun (c_ : bool) (x_ : Z) => if c_ then x_ else %s) %s %s)" % (b, c, a), "VZ"
+            raise Unsupported("jnp.where on %s, %s, %s" % (tc, ta, tb))
+        if f == "jnp.unique" and len(n.args) == 1 and set(kws) == {"size", "fill_value"}:
+            v, t = self.expr(n.args[0])
+            (sz, ts_), (fv, tf) = self.expr(kws["size"]), self.expr(kws["fill_value"])
+            if t == "VZ" and ts_ == tf == "Z":
+                return "(jnp_unique %s %s %s)" % (v, sz, fv), "VZ"
+        if f == "jnp.count_nonzero" and len(n.args) == 1 and not kws:
+            v, t = self.expr(n.args[0])
+            if t == "VB":
+                return "(zsum (map b2z %s))" % v, "Z"
+        if f == "jnp.ones" and len(n.args) == 1 and [(k, u(x)) for k, x in kws.items()] == [("dtype", "bool")]:
+            v, t = self.expr(n.args[0])
+            if t == "Z":
+                return "(repeat true (Z.to_nat %s))" % v, "VB"
+        if f == "jnp.full" and len(n.args) == 2 and [(k, u(x)) for k, x in kws.items()] == [("dtype", "jnp.int32")]:
+            (k_, tk), (v, tv) = self.expr(n.args[0]), self.expr(n.args[1])
+            if tk == tv == "Z":
+                return "(repeat %s (Z.to_nat %s))" % (v, k_), "VZ"
+        if f == "jnp.array" and len(n.args) == 2 and u(n.args[1]) == "jnp.int32" and not kws:
+            v, t = self.expr(n.args[0])
+            if t == "Z":
+                return v, "Z"
         if f == "jax.random.split" and len(n.args) == 1 and not kws:
             v, t = self.expr(n.args[0])
             if t == "Key":
@@ -289,6 +385,8 @@ class Tr:
             v, t = self.expr(n.args[0])
             if t == "B":
                 return "(b2z %s)" % v, "Z"
+            if t == "Z":
+                return v, "Z"
         if f == "Position" and len(n.args) == 1 and isinstance(n.args[0], ast.Starred) and not kws \
                 and isinstance(n.args[0].value, ast.Call) and u(n.args[0].value.func) == "tuple" and len(n.args[0].value.args) == 1:
             v, t = self.expr(n.args[0].value.args[0])
